@@ -89,7 +89,11 @@ class JournalProxy(object):
         p = self._proc
         if p is not None and p.dead:
             raise SimKill()
+        if p is not None:
+            p.journal_op = 'clear'
         self._inner.clear()
+        if p is not None:
+            p.journal_op = None
         self.muts.append(('clear', list(self.mirror)))
         del self.mirror[:]
 
@@ -97,7 +101,12 @@ class JournalProxy(object):
         p = self._proc
         if p is not None and p.dead:
             raise SimKill()
+        if p is not None:
+            p.journal_op = 'cut'
+            p.journal_cut_from = self.mirror[entryFrom][1] if 0 <= entryFrom < len(self.mirror) else None
         self._inner.deleteEntriesFrom(entryFrom)
+        if p is not None:
+            p.journal_op = None
         dropped = self.mirror[entryFrom:]
         del self.mirror[entryFrom:]
         if dropped:
@@ -107,9 +116,21 @@ class JournalProxy(object):
         p = self._proc
         if p is not None and p.dead:
             raise SimKill()
+        if p is not None:
+            p.journal_op = 'trim'
         self._inner.deleteEntriesTo(entryTo)
+        if p is not None:
+            p.journal_op = None
         del self.mirror[:entryTo]
         self.muts.append(('trim', entryTo))
+
+    def setRaftCommitIndex(self, idx):
+        p = self._proc
+        if p is not None:
+            if p.dead:
+                raise SimKill()
+            p.sim.mon.commit_values.setdefault(p.key, set()).add(idx)
+        return self._inner.setRaftCommitIndex(idx)
 
     # convenience for monitors -----------------------------------------------------
     def first_idx(self):
@@ -393,6 +414,9 @@ class Proc(object):
         self.heard = {}
         self.applied_uids = set()
         self.dropped_committed = set()
+        self.raised_pos = set()
+        self.journal_op = None
+        self.killed_at = None
         self.full_checks = 0
         self.born_step = 0
 
@@ -489,6 +513,7 @@ class Sim(object):
         self.members0 = ['10.0.0.%d:4321' % (i + 1) for i in range(cfg.get('n', 3))]
         self.ro_keys = ['ro%d' % i for i in range(cfg.get('n_ro', 0))]
         self.lockthreads = None
+        self.forced = collections.deque()
 
     def _battery_sleep(self, s):
         lt = self.lockthreads
@@ -523,6 +548,8 @@ class Sim(object):
             useFork=False,
         )
         j = c.get('journal', 'memory')
+        if key.startswith('ro'):
+            j = 'memory'       # observers (re)join as fresh processes
         safe = key.replace(':', '_')
         if j in ('file', 'file+dump'):
             kw['journalFile'] = os.path.join(self.scratch(), safe + '.journal')
@@ -554,7 +581,7 @@ class Sim(object):
     def user_class(self):
         return KV
 
-    def start_proc(self, key, addr, others, inc=0):
+    def start_proc(self, key, addr, others, inc=0, first_tick=True):
         p = Proc(self, key, addr, inc)
         p.clock_off = self.rng.choice([0.0, 12345.0, -500.0, 777.25]) if self.cfg.get('clock_offsets', True) else 0.0
         p.born_step = self.step
@@ -569,6 +596,11 @@ class Sim(object):
             obj = self.user_class()(addr, list(others), conf, p.consumers)
         p.obj = obj
         self.mon.on_proc_start(p)
+        if first_tick:
+            self.mon.before_tick(p)
+            self.run_node(p, obj.doTick, 0.0)
+            self.mon.after_tick(p)
+            self.mon.after_step(p, ('T', key, 0.0))
         return p
 
     def boot(self):
@@ -694,6 +726,13 @@ class Sim(object):
                 old = t.conns.get(node.id)
                 if old is not None and old is not c:
                     self.stats['stale_replaced'] += 1
+                    # TCPTransport closes the connection that is being replaced (silently: it is
+                    # no longer registered when its disconnect callback runs)
+                    if old.open[1] and old.ends[1] is rcv:
+                        old.open[1] = False
+                        old.q[0].clear()
+                        if not old.open[0]:
+                            self.conns.pop(old.cid, None)
                 t.conns[node.id] = c
                 self.mon.on_conn_event(rcv, 'accept', node.id, c)
                 self.run_node(rcv, t._onNodeConnected, node)
@@ -812,9 +851,93 @@ class Sim(object):
                 self.stats['ro_leave'] += 1
                 self.mon.sit['ro_leave'] += 1
                 return None
+        if k == 'KILL':
+            p = self.procs.get(a[1])
+            if p is None or p.dead:
+                return None
+            self.kill_proc(p)
+            return None
+        if k == 'R':
+            p = self.procs.get(a[1])
+            if p is None or not p.dead or getattr(p, 'left', False) and p.voter:
+                return None
+            return self.restart_proc(p, a[2] if len(a) > 2 else None)
+        if k == 'KP':
+            # ('KP', key, k, inner action): run the inner action on `key` with a kill at its k-th storage primitive
+            p = self.procs.get(a[1])
+            if p is None or p.dead:
+                return None
+            from . import storage
+            storage.arm(p, a[2])
+            try:
+                self.act(tuple(a[3]))
+            finally:
+                fired = storage.disarm()
+            if not p.dead:
+                self.mon.after_step(p, tuple(a[3]))
+                self.kill_proc(p)
+                self.stats['kill_after_step'] += 1
+            else:
+                self.mon.on_kill(p)
+                self.finish_kill(p)
+                self.stats['kill_at_primitive'] += 1
+                self.mon.obs['kill_at_' + str(fired)] += 1
+                self.mon.after_step(p, tuple(a[3]))
+            return None
         return None
 
     def current_members(self):
+        return list(self.members0)
+
+    def kill_proc(self, p):
+        """Process kill between two steps: memory gone, files as they are, sockets closed by the kernel."""
+        self.mon.on_kill(p)
+        p.dead = True
+        self.finish_kill(p)
+
+    def finish_kill(self, p):
+        self.stats['kill'] += 1
+        self.mon.kills += 1
+        for c in list(self.conns.values()):
+            side = c.side_of(p)
+            if side is not None and c.open[side]:
+                c.open[side] = False
+                c.q[1 - side].clear()
+                if not c.open[1 - side]:
+                    self.conns.pop(c.cid, None)
+        from . import storage
+        storage.bury(p)
+
+    def restart_proc(self, p, kill_k=None):
+        """New incarnation = construction + first tick (a real process loads its dump file at the start
+        of its first tick, before its poller can hand it any message).  kill_k: kill at the k-th
+        storage primitive of that first tick."""
+        members = [m for m in self.boot_members(p) if m != p.key]
+        q = self.start_proc(p.key, p.addr, members, inc=p.inc + 1, first_tick=False)
+        self.stats['restart'] += 1
+        self.mon.on_restart(p, q)
+        if kill_k is not None:
+            from . import storage
+            storage.arm(q, kill_k)
+        try:
+            self.mon.before_tick(q)
+            self.run_node(q, q.obj.doTick, 0.0)
+        finally:
+            if kill_k is not None:
+                fired = storage.disarm()
+        if q.dead:
+            self.mon.on_kill(q)
+            self.finish_kill(q)
+            self.stats['kill_at_primitive'] += 1
+            self.mon.sit['kill_during_first_tick'] += 1
+            self.mon.obs['kill_at_' + str(fired)] += 1
+            self.mon.after_step(q, ('T', q.key, 0.0))
+            return None
+        self.mon.after_tick(q)
+        self.mon.after_step(q, ('T', q.key, 0.0))
+        return q
+
+    def boot_members(self, p):
         return list(self.members0)
 
     # -- submissions -----------------------------------------------------------------
@@ -879,6 +1002,16 @@ class Sim(object):
             else:
                 m, args = rng.choice([('put', (('$UID',),)), ('get', ('$UID',))])
             return ('S', p.key, i, m, args)
+        if self.cfg.get('raising') and rng.random() < 0.3:
+            c = rng.random()
+            if c < 0.5:
+                return ('S', p.key, 'kv', 'failif', ('$UID', rng.choice([1, 2, 3])))
+            if c < 0.7 and 'list' in cons:
+                return ('S', p.key, cons.index('list'), 'remove', (rng.randrange(5),))
+            if c < 0.85 and 'list' in cons:
+                return ('S', p.key, cons.index('list'), 'pop', ())
+            if 'set' in cons:
+                return ('S', p.key, cons.index('set'), 'remove', (rng.randrange(5),))
         r = rng.random()
         if r < 0.45:
             return ('S', p.key, 'kv', 'append', ('$UID',))
@@ -900,6 +1033,18 @@ class Sim(object):
 
     def gen_action(self):
         rng = self.rng
+        if self.forced:
+            return self.forced.popleft()
+        lv = self.mon.last_voter
+        if lv is not None:
+            self.mon.last_voter = None
+            if self.cfg.get('votekill') and rng.random() < self.cfg['votekill']:
+                p = self.procs.get(lv)
+                if p is not None and not p.dead:
+                    self.mon.sit['vote_granted_then_killed'] += 1
+                    self.forced.append(('R', lv))
+                    # deliver a competing vote request right after the restart, if one is (or gets) queued
+                    return ('KILL', lv)
         w = self.weights
         kinds = list(w.keys())
         kind = rng.choices(kinds, [w[k] for k in kinds])[0]
@@ -993,7 +1138,35 @@ class Sim(object):
             if p is None or p.dead:
                 return ('RO', 'join', key)
             return ('RO', 'leave', key)
+        if kind == 'kill':
+            live = [p for p in self.live() if p.voter]
+            maxdead = self.cfg.get('max_dead', len(self.members0))
+            ndead = sum(1 for p in self.procs.values() if p.voter and p.dead)
+            if live and ndead < maxdead:
+                p = rng.choice(live)
+                if self.cfg.get('kill_points') and rng.random() < 0.7:
+                    inner = self.gen_step_for(p)
+                    if inner is not None:
+                        return ('KP', p.key, rng.choice([0, 0, 1, 1, 2, 3, 4, 6, 9, 14]), inner)
+                return ('KILL', p.key)
+            return None
+        if kind == 'restart':
+            dead = [p for p in self.procs.values() if p.dead and p.voter and not getattr(p, 'left', False)]
+            if dead:
+                if self.cfg.get('kill_points') and rng.random() < 0.15:
+                    return ('R', rng.choice(dead).key, rng.choice([0, 1, 2, 3, 5, 8, 12]))
+                return ('R', rng.choice(dead).key)
+            return None
         return None
+
+    def gen_step_for(self, p):
+        """A step that runs code of process p: one of its deliverable messages, or a tick."""
+        rng = self.rng
+        cands = [(c, d) for (c, d) in self.deliver_candidates() if c.ends[1 - d] is p]
+        if cands and rng.random() < 0.6:
+            c, d = rng.choice(cands)
+            return ('D', c.cid, d)
+        return ('T', p.key, rng.choices(DTS, DT_W)[0])
 
     # -- main loop -------------------------------------------------------------------
     def run(self, actions=None):
@@ -1085,7 +1258,10 @@ class Sim(object):
         self.phase = 'done'
 
     def quiet_prepare(self):
-        pass
+        # faults stop: every killed voter is started again
+        for p in list(self.procs.values()):
+            if p.dead and p.voter and not getattr(p, 'left', False):
+                self.one_step(('R', p.key))
 
     def teardown(self):
         global SIM
